@@ -26,7 +26,7 @@ RULE = (
 
 # ---- (a) constant programs ------------------------------------------------------------------------------------------------
 ARG_KINDS = ["pyfloat", "npfloat", "array0d", "vector", "matrix", "rank3", "tuple", "dict", "nested"]
-OUT_KINDS = ["pyfloat", "npfloat", "array", "array2", "ab_tuple", "ab_dict"]
+OUT_KINDS = ["pyfloat", "npfloat", "array", "array2", "ab_tuple", "ab_dict", "dict_entry", "seq_entry"]
 DEP_KINDS = ["ignore", "shape", "len_type", "compare_branch", "nograd_floor", "nograd_sign_argmax", "loop_count", "getval_free_const",
              "where_cond", "cast_astype_int", "cast_array_int", "cast_full_int", "cast_astype_bool"]
 OPERATORS = ["grad", "value_and_grad", "elementwise_grad", "jacobian", "hessian", "make_vjp", "make_jvp", "deriv", "grad_and_aux", "make_hvp",
@@ -66,7 +66,15 @@ def make_const_fn(dep, outk):
     """f(x, ns, ab) -> float output independent of x through differentiable operations."""
     K = onp.array([[0.5, -1.25, 2.0], [0.75, 1.5, -0.5]])
 
-    def out(scale, ns, ab):
+    def out(scale, ns, ab, leaf=None):
+        if outk == "dict_entry":
+            # the constant entry of a container whose OTHER entries depend on the argument (keys not in sorted order): selecting it
+            # must leave nothing of the neighbours' derivatives behind
+            d = ab.dict({"w": ns.sin(leaf) * 2.0, "b": K * scale, "z": ns.sum(ns.cos(leaf)), "a": 0.5 * scale})
+            return ab.tuple((d["b"], d["a"]))
+        if outk == "seq_entry":
+            t = ab.list([ns.sin(leaf) * 2.0, K[0] * scale, ns.sum(ns.cos(leaf))])
+            return t[1] if scale > 0 else t[-2]
         if outk == "pyfloat":
             return 1.5 * scale
         if outk == "npfloat":
@@ -118,7 +126,7 @@ def make_const_fn(dep, outk):
                 s += 1.5
         else:
             s = float(onp.float64(2.0)) * 1.0
-        return out(s * mult, ns, ab)
+        return out(s * mult, ns, ab, leaf)
 
     return f
 
@@ -496,14 +504,22 @@ def masked_body(c):
     vseed = c.seed()
     x = values.generic(vseed, [shape], -1.5, 1.5)[0][0]
     w = values.direction(vseed, shape, 3)
-    idiom = c.choice(["sqrt_of_where", "where_of_sqrt", "where_of_log", "where_of_div", "log_of_where"])
-    mode = {"sqrt_of_where": "rev", "log_of_where": "rev"}.get(idiom, c.choice(["fwd", "rev_masked_only"]))
+    idiom = c.choice(["sqrt_of_where", "where_of_sqrt", "where_of_log", "where_of_div", "log_of_where", "sqrt_of_nan_to_num", "nan_to_num_of_log"])
+    mode = {"sqrt_of_where": "rev", "log_of_where": "rev", "sqrt_of_nan_to_num": "rev"}.get(idiom, c.choice(["fwd", "rev_masked_only"]))
     m = x > 0.2
     sample = {"idiom": idiom, "mode": mode, "shape": list(shape), "vseed": vseed}
     if not m.any() or m.all():
         return Outcome("numpy_rejects", detail="mask selects all or nothing", sample=sample)
 
+    # nan_to_num as the mask: the unselected entries of the INPUT are nan (replaced by 0, where sqrt has an infinite slope) or 0 (log gives
+    # -inf with an infinite tangent, replaced by a constant): the replaced entries are constants, whatever (co)tangent reaches them
+    xin = {"sqrt_of_nan_to_num": onp.where(m, x, onp.nan), "nan_to_num_of_log": onp.where(m, x, 0.0)}.get(idiom, x)
+
     def f(t):
+        if idiom == "sqrt_of_nan_to_num":
+            return anp.sum(anp.sqrt(anp.nan_to_num(t)) * w)
+        if idiom == "nan_to_num_of_log":
+            return anp.sum(anp.nan_to_num(anp.log(t)) * (1e-300 * w))
         if idiom == "sqrt_of_where":
             return anp.sum(anp.sqrt(anp.where(t > 0.2, t, 0.0)) * w)
         if idiom == "log_of_where":
@@ -515,19 +531,20 @@ def masked_body(c):
         return anp.sum(anp.where(t > 0.2, 1.0 / (t - 0.2 * (t <= 0.2)), 0.0) * w)
 
     d = {"sqrt_of_where": 0.5 / onp.sqrt(onp.where(m, x, 1.0)), "where_of_sqrt": 0.5 / onp.sqrt(onp.where(m, x, 1.0)), "log_of_where": 1.0 / onp.where(m, x, 1.0),
-         "where_of_log": 1.0 / onp.where(m, x, 1.0), "where_of_div": -1.0 / onp.where(m, x, 1.0) ** 2}[idiom]
+         "where_of_log": 1.0 / onp.where(m, x, 1.0), "where_of_div": -1.0 / onp.where(m, x, 1.0) ** 2,
+         "sqrt_of_nan_to_num": 0.5 / onp.sqrt(onp.where(m, x, 1.0)), "nan_to_num_of_log": 1e-300 / onp.where(m, x, 1.0)}[idiom]
     want = onp.where(m, d * w, 0.0)
     try:
         with warnings.catch_warnings():
             warnings.simplefilter("ignore")
             if mode == "fwd":
                 v = values.direction(vseed, shape, 4)
-                got = float(autograd.make_jvp(f)(x)(v)[1])
+                got = float(autograd.make_jvp(f)(xin)(v)[1])
                 if not abs(got - float(onp.sum(want * v))) <= 1e-12 * max(1.0, abs(float(onp.sum(want * v)))):
                     return fail("not_exact_zero", f"{idiom}: forward-mode derivative {got!r}, expected {float(onp.sum(want * v))!r} (unselected entries contribute exactly zero)",
                                 f"C14|masked|{idiom}|fwd", sample=sample)
             else:
-                got = onp.asarray(autograd.grad(f)(x))
+                got = onp.asarray(autograd.grad(f)(xin))
                 if mode == "rev":
                     bad = not onp.allclose(got, want, rtol=1e-12, atol=0) or not onp.array_equal(got[~m], onp.zeros(int((~m).sum())))
                 else:  # the reverse pass of these idioms is non-finite upstream of where at the unselected entries: only the selected ones are compared
